@@ -35,6 +35,21 @@ var secretPaths = map[string]bool{
 	"Management.PrivateKey": true, "Management.SigningPrivateKey": true,
 }
 
+// isSecret: the property's list, plus any field whose name says it is a
+// password, password hash, private key or inline key (a field added later)
+func isSecret(p string) bool {
+	if secretPaths[p] {
+		return true
+	}
+	last := p[strings.LastIndex(p, ".")+1:]
+	for _, suf := range []string{"Password", "PasswordHash", "PrivateKey", "KeyPEM"} {
+		if strings.HasSuffix(last, suf) {
+			return true
+		}
+	}
+	return false
+}
+
 type leaf struct {
 	Path string `json:"path"`
 	Idx  []int  `json:"idx,omitempty"`
@@ -267,7 +282,7 @@ func main() {
 
 	body := &hcq.Enc{}
 	nCases := 0
-	maxModelCases := c.N(60, 400) // every case is monitored; the first ones are also compared with the model
+	maxModelCases := c.N(35, 300) // every case is monitored; the first ones are also compared with the model
 	nLeaves := 0
 	walk(reflect.ValueOf(func() *config.Config { c, _ := build(shape{Seed: 1, Fill: 4, MaxList: 2}); return c }()).Elem(), nil, nil,
 		func(p string, idx []int, s reflect.Value) { nLeaves++ })
@@ -315,7 +330,7 @@ func main() {
 			if !ok {
 				return
 			}
-			if secretPaths[p] {
+			if isSecret(p) {
 				nSecret++
 				if strings.Contains(out, mk) {
 					leaked = append(leaked, fmt.Sprintf("%s%v", p, idx))
@@ -334,7 +349,7 @@ func main() {
 				continue
 			}
 			walk(reflect.ValueOf(cand).Elem(), nil, nil, func(p string, idx []int, s reflect.Value) {
-				if !secretPaths[p] || s.String() == "" || s.String() == "[REDACTED]" {
+				if !isSecret(p) || s.String() == "" || s.String() == "[REDACTED]" {
 					return
 				}
 				notRedacted = append(notRedacted, fmt.Sprintf("%s%v", p, idx))
